@@ -7,7 +7,7 @@ The table layer additionally decides, per entry, that the database's tuple type 
 for the _Lx classes of shape [reg, MEM] that the L bits derived from the MEMORY operand's size agree with the form.
 -/
 import AsmjitVerif.Props.C01Rows
-import AsmjitVerif.Props.C01FrontMemV
+import AsmjitVerif.Props.C01FrontMemX
 set_option linter.constructorNameAsVariable false
 set_option maxRecDepth 100000
 namespace AsmjitVerif.Props.C01
@@ -392,5 +392,49 @@ theorem dispatch_rmi_mem (c : Model.X86.Ctx) (row : Row) (options : BitVec 32) (
       emitVexEvexM c (if row.encoding = 0x71 then row.mainOp ||| opcodeLBySize ((Op.reg t0 i0).rmSize ||| m.size) else row.mainOp)
         options (r32 i0) m imm 1 := by
   rcases henc with h | h <;> simp [dispatch, h, sig3, Op.kind, Op.id, Op.rmSize, Op.immVal]
+
+/-! ### the three address forms, spelled out for the class VexRvm (the other shapes instantiate the same way) -/
+
+/-- `front_cls_correct_rvm_mem` instantiated: `reg, vvvv, [base64 + disp]`, ALL bases 0..15, ALL displacements -/
+theorem front_cls_correct_rvm_mem_base (e : Entry) (ch : List Entry) (hch : ch ∈ rvmChunks) (he : e ∈ ch)
+    (c : Model.X86.Ctx) (ctx : Spec.X86.Ctx) (reg vvvvv : BitVec 32) (rb : BitVec 32) (size : Nat) (d : BitVec 64)
+    (hcm : c.mode64 = true) (hpe : c.preferEvex = false) (hk : c.extraId = 0#32) (hvs : c.vsib = false) (hts : c.tsib = false)
+    (hvf : c.vexFlag = (e.iflags &&& 0x400000#32 != 0#32)) (hm64 : ctx.mode64 = true) (hb : rb < 16#32)
+    (hsz : ∀ f2, e.rule.ops[2]? = some f2 → hasMemAlt f2 size = true)
+    (hids : (e.rule.space = 2 ∧ reg < 32#32 ∧ vvvvv < 32#32 ∧
+              (e.iflags &&& 0x400000#32 = 0#32 ∨ xR (finalOp e 0x75) 0#32 reg vvvvv rb 0#32 &&& 0x00D78110#32 ≠ 0#32)) ∨
+            (e.rule.space = 1 ∧ reg < 16#32 ∧ vvvvv < 16#32)) :
+    ∃ bytes k0 k1 k2, e.kinds = [k0, k1, k2] ∧
+      emitVexEvexM c (finalOp e 0x75) 0#32 (packRegVvvvv reg.toNat vvvvv.toNat) (memBase size rb d) 0 0 = .ok bytes ∧
+      formOk ctx e.rule [.reg k0 reg.toNat, .reg k1 vvvvv.toNat, .mem (memOpBase size rb d)] {} bytes = true :=
+  front_cls_correct_rvm_mem e ch hch he c ctx reg vvvvv rb size _ _ _ _ _ (addrForm_base c ctx rb size d hcm hpe hk hvs hts hm64 hb) rfl hvf hm64 hsz hids
+
+/-- `front_cls_correct_rvm_mem` instantiated: `reg, vvvv, [base64 + index64 * 2^sh + disp]`, ALL bases 0..15, ALL indexes 0..15 but rSP, ALL scales, ALL displacements -/
+theorem front_cls_correct_rvm_mem_index (e : Entry) (ch : List Entry) (hch : ch ∈ rvmChunks) (he : e ∈ ch)
+    (c : Model.X86.Ctx) (ctx : Spec.X86.Ctx) (reg vvvvv : BitVec 32) (rb rx : BitVec 32) (sh : Nat) (size : Nat) (d : BitVec 64)
+    (hcm : c.mode64 = true) (hpe : c.preferEvex = false) (hk : c.extraId = 0#32) (hvs : c.vsib = false) (hts : c.tsib = false)
+    (hvf : c.vexFlag = (e.iflags &&& 0x400000#32 != 0#32)) (hm64 : ctx.mode64 = true) (hb : rb < 16#32) (hx : rx < 16#32) (hx4 : rx ≠ 4#32) (hsh : sh < 4)
+    (hsz : ∀ f2, e.rule.ops[2]? = some f2 → hasMemAlt f2 size = true)
+    (hids : (e.rule.space = 2 ∧ reg < 32#32 ∧ vvvvv < 32#32 ∧
+              (e.iflags &&& 0x400000#32 = 0#32 ∨ xR (finalOp e 0x75) 0#32 reg vvvvv (xbOf rb rx) 0#32 &&& 0x00D78110#32 ≠ 0#32)) ∨
+            (e.rule.space = 1 ∧ reg < 16#32 ∧ vvvvv < 16#32)) :
+    ∃ bytes k0 k1 k2, e.kinds = [k0, k1, k2] ∧
+      emitVexEvexM c (finalOp e 0x75) 0#32 (packRegVvvvv reg.toNat vvvvv.toNat) (memBaseIndex size rb rx sh d) 0 0 = .ok bytes ∧
+      formOk ctx e.rule [.reg k0 reg.toNat, .reg k1 vvvvv.toNat, .mem (memOpBaseIndex size rb rx sh d)] {} bytes = true :=
+  front_cls_correct_rvm_mem e ch hch he c ctx reg vvvvv (xbOf rb rx) size _ _ _ _ _ (addrForm_index c ctx rb rx size sh d hcm hpe hk hvs hm64 hb hx hx4 hsh) rfl hvf hm64 hsz hids
+
+/-- `front_cls_correct_rvm_mem` instantiated: `reg, vvvv, [rip + disp32]`, ALL displacements -/
+theorem front_cls_correct_rvm_mem_rip (e : Entry) (ch : List Entry) (hch : ch ∈ rvmChunks) (he : e ∈ ch)
+    (c : Model.X86.Ctx) (ctx : Spec.X86.Ctx) (reg vvvvv : BitVec 32)  (size : Nat) (d : BitVec 64)
+    (hcm : c.mode64 = true) (hpe : c.preferEvex = false) (hk : c.extraId = 0#32) (hvs : c.vsib = false) (hts : c.tsib = false)
+    (hvf : c.vexFlag = (e.iflags &&& 0x400000#32 != 0#32)) (hm64 : ctx.mode64 = true) 
+    (hsz : ∀ f2, e.rule.ops[2]? = some f2 → hasMemAlt f2 size = true)
+    (hids : (e.rule.space = 2 ∧ reg < 32#32 ∧ vvvvv < 32#32 ∧
+              (e.iflags &&& 0x400000#32 = 0#32 ∨ xR (finalOp e 0x75) 0#32 reg vvvvv 0#32 0#32 &&& 0x00D78110#32 ≠ 0#32)) ∨
+            (e.rule.space = 1 ∧ reg < 16#32 ∧ vvvvv < 16#32)) :
+    ∃ bytes k0 k1 k2, e.kinds = [k0, k1, k2] ∧
+      emitVexEvexM c (finalOp e 0x75) 0#32 (packRegVvvvv reg.toNat vvvvv.toNat) (memRip size d) 0 0 = .ok bytes ∧
+      formOk ctx e.rule [.reg k0 reg.toNat, .reg k1 vvvvv.toNat, .mem (memOpRip size d)] {} bytes = true :=
+  front_cls_correct_rvm_mem e ch hch he c ctx reg vvvvv 0#32 size _ _ _ _ _ (addrForm_rip c ctx size d hcm hpe hk hvs hm64) rfl hvf hm64 hsz hids
 
 end AsmjitVerif.Props.C01
